@@ -82,6 +82,7 @@ def command_text(c) -> str:
     return c.expr
 
 
+LONG_TIMES = [15000.0, 30000.0, 45000.0, 60000.0, 90000.0, 180000.0, 30000.5]
 GRID_TIMES = [0.0, 1.0, 30.0, 100.0, 250.0, 500.0, 780.0, 1000.0, 1500.0, 2500.0, 4000.0, 0.5, 333.25, 7000.0]
 
 
@@ -94,11 +95,34 @@ def random_plan(rng: random.Random, job: str, variant: int, n: int, with_console
     names = [v.name for v in eng.get_current_viewer()("validity")]
     cmds = []
     last_skill = None
-    for _ in range(n):
+    pending: list = []       # rest of a command pattern being emitted
+    while len(cmds) < n:
+        if pending:
+            c = pending.pop(0)
+            cmds.append(c)
+            eng.exec(c)
+            continue
         viewer = eng.get_current_viewer()
         valid = [v.name for v in viewer("validity") if v.valid]
         keydowns = [k.name for k in viewer("keydown") if k.running]
         r = rng.random()
+        if rng.random() < 0.08 and valid:
+            # patterns whose meaning depends on what survives between commands: a delayed use, then debug lines
+            # (logs without playlogs), then the command that reads the pending events
+            s1 = rng.choice(valid)
+            pat = rng.choice([
+                [op("USE", s1), console(rng.choice(CONSOLE_TEXTS)), op("RESOLVE", s1)],
+                [op("USE", s1), console(rng.choice(CONSOLE_TEXTS)), console(rng.choice(CONSOLE_TEXTS)), op("RESOLVE", s1)],
+                [op("CAST", s1), console(rng.choice(CONSOLE_TEXTS)), op("ELAPSE", time=0.0), op("RESOLVE", s1)],
+                [op("USE", s1), op("RESOLVE", rng.choice(names)), op("RESOLVE", s1)],
+                [console(rng.choice(CONSOLE_TEXTS)), op("USE", s1), op("KEYDOWNSTOP", s1), op("RESOLVE", s1)],
+            ])
+            last_skill = s1
+            pending = pat[1:]
+            c = pat[0]
+            cmds.append(c)
+            eng.exec(c)
+            continue
         if keydowns and r < 0.25:
             c = op("KEYDOWNSTOP", rng.choice(keydowns))
         elif r < 0.30 and valid:
@@ -117,11 +141,17 @@ def random_plan(rng: random.Random, job: str, variant: int, n: int, with_console
         elif r < 0.83 and with_console:
             c = console(rng.choice(CONSOLE_TEXTS))
         else:
-            t = rng.choice(GRID_TIMES) if rng.random() < 0.7 else float(rng.randint(0, int(max_elapse)))
-            c = op("ELAPSE", time=min(t, max_elapse))
+            u = rng.random()
+            if u < 0.12:
+                t = rng.choice(LONG_TIMES)      # long enough for periodic skills, buffs and cooldowns to expire
+            elif u < 0.75:
+                t = min(rng.choice(GRID_TIMES), max_elapse)
+            else:
+                t = min(float(rng.randint(0, int(max_elapse))), max_elapse)
+            c = op("ELAPSE", time=t)
         cmds.append(c)
         eng.exec(c)
-    return cmds
+    return cmds[:n]
 
 
 # ------------------------------------------------------------------ canonical forms
